@@ -150,7 +150,21 @@ def _driver(rc: RuleCtx):
             fr.block(m.post, env, TRUE)
             sorts = [e for e in fr.events if e.kind == "sort" and e.target == m.retained and e.guard.kind == "true" and not e.node.keywords]
             rn = returned_names(m.post)
-            if sorts and len(fr.returns) == 1 and rn is not None and m.retained in rn:
+            # ... or the returned value is sorted(knees) (ascending: no key / reverse argument)
+            via_sorted = False
+            if len(fr.returns) == 1 and not sorts:
+                rv_ = fr.returns[0][1]
+                try:
+                    rr = ev.to_rat(rv_)
+                    kn = ev.to_rat(env[m.retained]) if m.retained in env else None
+                    for a_ in rr.all_atoms():
+                        if a_.kind == "fn" and a_.name.split(".")[-1] == "sorted" and len(a_.args) == 1 and kn is not None and a_.args[0].equals(kn):
+                            via_sorted = rr.equals(Rat.from_atom(a_))
+                except Unsupported:
+                    pass
+            if via_sorted:
+                res.ok("M5", "multi_knee.multi_knee", "np.array(sorted(knees)) is returned")
+            elif sorts and len(fr.returns) == 1 and rn is not None and m.retained in rn:
                 res.ok("M5", "multi_knee.multi_knee", "knees.sort() before np.array(knees) is returned")
             else:
                 res.violation("M5", m.fi.module, m.fi.name, m.fi.node, "the knees are not sorted ascending before being returned", str([ast.unparse(s) for s in m.post]),
